@@ -64,15 +64,18 @@ def _quiet(fn):
 
 @st.composite
 def _nodes(draw, min_n=1, max_n=12, allow_dup=False):
-    style = draw(st.sampled_from(["int", "dyadic", "float", "float"]))
+    style = draw(st.sampled_from(["int", "dyadic", "float", "float", "tight"]))
     n = draw(st.one_of(st.integers(min_n, max_n), st.integers(max(min_n, 3), max_n)))
     if style in ("int", "dyadic"):
         return {"style": style, "start": draw(st.integers(-50, 50)),
                 "gaps": draw(st.lists(st.integers(0, 3) if allow_dup else st.integers(1, 8), min_size=n - 1, max_size=n - 1)),
                 "j": 0 if style == "int" else draw(st.integers(1, 6))}
+    # the unit is drawn by decade first (every decade 1e-3 .. 1e3 equally often): node spacings from 2e-5 to 1e5
+    dec = draw(st.sampled_from([-3, -2, -1, 0, 1, 2]))
+    tight = style == "tight"   # closely spaced nodes: every spacing between 2e-5 and 1e-3
     return {"style": "float", "x0": draw(st.floats(-1e3, 1e3, allow_nan=False)),
-            "unit": draw(gen.log_uniform(1e-3, 1e3)),
-            "gaps": draw(st.lists(gen.log_uniform(2e-2, 1e2), min_size=n - 1, max_size=n - 1))}
+            "unit": 1e-3 if tight else 10.0 ** dec * draw(st.floats(1.0, 10.0, allow_nan=False)),
+            "gaps": draw(st.lists(gen.log_uniform(2e-2, 1.0 if tight else 1e2), min_size=n - 1, max_size=n - 1))}
 
 
 def _build_nodes(spec):
@@ -195,7 +198,8 @@ def _interp2d_cases(draw):
              "non-trivial = some query strictly between two nodes whose rows differ",
         oracle="reference model: loop over queries and columns, bracket by linear scan, long-double linear interpolation with end "
                "clamping (validated against numpy.interp at import); tolerance 1e-12*(|f_lo|+|f_hi|); inputs not mutated",
-        require={"inside": 0.3, "on-node": 0.3, "left-out": 0.12, "right-out": 0.12, "f-int": 0.08, "x-int": 0.02})
+        require={"inside": 0.3, "on-node": 0.3, "left-out": 0.12, "right-out": 0.12, "f-int": 0.08, "x-int": 0.02,
+                 "query-in-gap<1e-3": 0.02})
 def interp2d(case, ctx):
     xf = _build_nodes(case["nodes"])
     n = len(xf)
@@ -212,6 +216,8 @@ def interp2d(case, ctx):
     labs = _query_classes(x, xf)
     ctx.cls(*sorted(labs))
     ctx.cls("nodes=" + case["nodes"]["style"], "f-int" if case["fint"] else "f-float", "n=1" if n == 1 else None)
+    if n > 1 and any(xf[j] < q < xf[j + 1] and xf[j + 1] - xf[j] < 1e-3 for q in x for j in range(n - 1)):
+        ctx.cls("query-in-gap<1e-3")
     if any(k == "mid" for k, _, _ in case["q"]) and n > 1:
         ctx.cls("midpoint")
     x_b, xf_b, f_b = x.copy(), xf.copy(), f.copy()
